@@ -135,13 +135,13 @@ fn op_env(bytes: &[u8], dir: i128, ns: Vec<NaiveDateTime>) -> Val {
 
 pub fn dispatch(op: &str, a: &[Val]) -> Option<Val> {
     let r = match op {
-        "lz.at" | "lz.loc" | "lz.uloc" | "lz.sel" | "lz.usel" | "lz.rt" | "lz.urt" => (|| {
+        "lz.at" | "lz.uat" | "lz.loc" | "lz.uloc" | "lz.sel" | "lz.usel" | "lz.rt" | "lz.urt" => (|| {
             if a.len() != 3 { return None; }
             let ns = secs_list(&a[2])?;
             let z = match zone_of(&a[0])? { Ok(z) => z, Err(e) => return Some(err_of(&e)) };
             CUR.with(|c| *c.borrow_mut() = Some(z));
             let f: fn(&HookTz, &NaiveDateTime) -> Val = match op {
-                "lz.at" => op_at,
+                "lz.at" | "lz.uat" => op_at,
                 "lz.loc" | "lz.uloc" => op_loc,
                 "lz.sel" | "lz.usel" => op_sel,
                 _ => op_rt,
